@@ -234,13 +234,25 @@ class Tr:
             if ta == 'vecF' and tb in ('F', 'Z'):
                 return f'(map (fun x => nmax O x {self.toF(b, tb, n)}) {a})', 'vecF'
         if name == 'stats.t.cdf' and len(args) == 2:
-            a, ta = self.expr(args[0], env)      # the distribution function of the given degrees of freedom: a section variable
+            # the distribution function of the degrees of freedom the caller passed (the parameter `dof`, unchanged):
+            # a section variable
+            if not (isinstance(args[1], ast.Name) and args[1].id == 'dof'):
+                fail(n, 'stats.t.cdf is not evaluated at the degrees of freedom `dof`')
+            a, ta = self.expr(args[0], env)
             if ta == 'vecF':
                 return f'(map cdf {a})', 'vecF'
+            if ta in ('F', 'Z'):
+                return f'(cdf {self.toF(a, ta, n)})', 'F'
         if name == 'np.sqrt' and len(args) == 1:
             a, ta = self.expr(args[0], env)
             if ta in ('vecF', 'col', 'row'):
                 return f'(map (nsqrt O) {a})', ta
+            if ta == 'F':
+                return f'(nsqrt O {a})', 'F'
+        if name in ('np.abs', 'abs') and len(args) == 1:
+            a, ta = self.expr(args[0], env)
+            if ta == 'F':
+                return f'(py_abs O {a})', 'F'
         if name == 'np.log' and len(args) == 1:
             a, ta = self.expr(args[0], env)
             if ta == 'mat':
@@ -576,12 +588,49 @@ def translate_slice(spec, tree):
                 and ast.unparse(loop.iter.args[0]) == spec['loop_range']):
             raise Unsupported(f"{spec['func']}: loop does not run over range({spec['loop_range']}): "
                               f"{ast.unparse(loop.iter)}")
+    elif 'loop_header' in spec:
+        # `for i, x in enumerate(X): ...; out[i] = e`: the body is translated as the function giving entry i of `out`
+        # from x (and from the i-th entries of other vectors, named as inputs)
+        cands = [s for s in loops if ast.unparse(s).split('\n')[0].rstrip(':') == spec['loop_header']]
+        if len(cands) != 1:
+            raise Unsupported(f"{spec['func']}: expected exactly one loop `{spec['loop_header']}`, found {len(cands)}")
+        loop = cands[0]
+        after = [ast.unparse(s) for s in fn.body[fn.body.index(loop) + 1:]]
+        if after != [norm(t) for t in spec.get('expected_after_loop', [])]:
+            raise Unsupported(f"{spec['func']}: statements after the loop differ from the declared ones: {after}")
+        stores = spec.get('store_outputs', {})
+        seen = {k: 0 for k in stores}
+        newbody = []
+        for s in loop.body:
+            for c in ast.walk(s):
+                if isinstance(c, ast.Subscript) and isinstance(c.ctx, (ast.Store, ast.Del)):
+                    if not (isinstance(s, ast.Assign) and len(s.targets) == 1 and s.targets[0] is c
+                            and ast.unparse(c) in stores):
+                        fail(s, 'item assignment inside the loop that is not a declared output')
+            if isinstance(s, ast.Assign) and len(s.targets) == 1 and ast.unparse(s.targets[0]) in stores:
+                key = ast.unparse(s.targets[0])
+                seen[key] += 1
+                s = ast.copy_location(ast.Assign(targets=[ast.Name(id=stores[key], ctx=ast.Store())], value=s.value), s)
+                ast.fix_missing_locations(s)
+            newbody.append(s)
+        if any(v != 1 for v in seen.values()):
+            raise Unsupported(f"{spec['func']}: each output entry must be stored exactly once per iteration: {seen}")
+        loop = ast.copy_location(ast.For(target=loop.target, iter=loop.iter, body=newbody, orelse=loop.orelse), loop)
+        fn.body[[i for i, s in enumerate(fn.body) if s is cands[0]][0]] = loop
+    if loop is not None:
         if loop.orelse:
             raise Unsupported('loop with else')
         for s in fn.body:
             if s is loop:
                 break
             seq.append(s)
+        if 'loop_header' in spec:
+            # the entry function is the loop body; everything before the loop must be exactly the declared statements
+            pre = [ast.unparse(s) for s in seq
+                   if not (isinstance(s, ast.Expr) and isinstance(s.value, ast.Constant) and isinstance(s.value.value, str))]
+            if pre != [norm(t) for t in spec.get('expected_before_loop', [])]:
+                raise Unsupported(f"{spec['func']}: statements before the loop differ from the declared ones: {pre}")
+            seq = []
         seq += list(loop.body)
     else:
         seq = list(fn.body)
